@@ -1438,7 +1438,117 @@ func ruleR17_6(c *Check) {
 	r.Exists(len(rp.Sites(selCall(apply))) >= 1, rp, "replay applies with applyChangeSet", nil, "ReplayManifestFile does not use applyChangeSet")
 }
 
+// R17.7: one change set is one record.
+func ruleR17_7(c *Check) {
+	w := c.W
+	r := c.Rule("R17.7", "E4+E1", 5, "a change set is all-or-nothing in the file: manifestFile.addChanges marshals one pb.ManifestChangeSet holding the whole parameter slice (not a sub-slice, not in a loop), frames it with one length/CRC header and appends it with one Write outside any loop; the set it applies in memory is that same object",
+		"a change set split over several records is applied in part when the file is cut between them: a compaction's deletions without its creations (or the reverse) survive a crash")
+	f := w.F("badger.manifestFile.addChanges")
+	var param *types.Var
+	ps := f.Obj.Type().(*types.Signature).Params()
+	for i := 0; i < ps.Len(); i++ {
+		if _, ok := ps.At(i).Type().Underlying().(*types.Slice); ok {
+			param = ps.At(i)
+		}
+	}
+	if param == nil {
+		panic(anchorError{"changes parameter of manifestFile.addChanges"})
+	}
+	inLoop := func(n ast.Node) bool {
+		for p := w.parentOf(n); p != nil; p = w.parentOf(p) {
+			switch p.(type) {
+			case *ast.ForStmt, *ast.RangeStmt:
+				return true
+			case *ast.FuncLit, *ast.FuncDecl:
+				return false
+			}
+		}
+		return false
+	}
+	changesF := w.Field("pb.ManifestChangeSet.Changes")
+	// the change-set object(s) built in addChanges
+	sets := 0
+	var setVar *types.Var
+	f.walk(func(x ast.Node) bool {
+		cl, ok := x.(*ast.CompositeLit)
+		if !ok {
+			return true
+		}
+		tv, ok := w.Info.Types[cl]
+		if !ok || !namedIs(tv.Type, modPath+"/pb", "ManifestChangeSet") {
+			return true
+		}
+		sets++
+		whole := false
+		for _, el := range cl.Elts {
+			if kv, ok := el.(*ast.KeyValueExpr); ok {
+				if id, ok := kv.Key.(*ast.Ident); ok && w.Use(id) == types.Object(changesF) {
+					if vid, ok := unparen(kv.Value).(*ast.Ident); ok && w.Use(vid) == types.Object(param) {
+						whole = true
+					}
+				}
+			}
+		}
+		r.Check(whole && !inLoop(cl), f, "the record holds the whole change set", cl, "the ManifestChangeSet written is not built from the whole parameter slice, once")
+		if as, ok := w.parentOf(cl).(*ast.AssignStmt); ok && len(as.Lhs) == 1 {
+			if id, ok := as.Lhs[0].(*ast.Ident); ok {
+				setVar, _ = w.Use(id).(*types.Var)
+			}
+		}
+		return true
+	})
+	r.Exists(sets == 1, f, "one change-set object", nil, "expected exactly one pb.ManifestChangeSet literal in addChanges")
+	refersToSet := func(e ast.Expr) bool {
+		found := false
+		ast.Inspect(e, func(n ast.Node) bool {
+			if id, ok := n.(*ast.Ident); ok && setVar != nil && w.Use(id) == types.Object(setVar) {
+				found = true
+			}
+			return true
+		})
+		return found
+	}
+	marshals := 0
+	for _, s := range f.Sites(selPred("proto.Marshal", func(w *World, fn *Fn, n ast.Node) bool {
+		call, ok := n.(*ast.CallExpr)
+		return ok && w.Callee(call) != nil && w.Callee(call).Name() == "Marshal" && len(call.Args) == 1
+	})) {
+		marshals++
+		call := s.(*ast.CallExpr)
+		r.Check(!inLoop(call) && refersToSet(call.Args[0]), f, "the whole set is marshalled once", s, "Marshal is applied to something other than the change set, or in a loop")
+	}
+	r.Exists(marshals == 1, f, "one Marshal", nil, "expected exactly one Marshal call in addChanges")
+	for _, s := range f.Sites(selCall(w.Func("badger.applyChangeSet"))) {
+		call := s.(*ast.CallExpr)
+		r.Check(len(call.Args) >= 2 && refersToSet(call.Args[1]), f, "the set applied in memory is the set written", s, "applyChangeSet is given "+short(w, call.Args[1])+", not the change set that is marshalled")
+	}
+	fp := w.Field("badger.manifestFile.fp")
+	writes := 0
+	f.walk(func(x ast.Node) bool {
+		call, ok := x.(*ast.CallExpr)
+		if !ok {
+			return true
+		}
+		se, ok := unparen(call.Fun).(*ast.SelectorExpr)
+		if !ok || !(se.Sel.Name == "Write" || se.Sel.Name == "WriteAt" || se.Sel.Name == "WriteString") || w.fieldOf(se.X) != fp {
+			return true
+		}
+		writes++
+		r.Check(!inLoop(call), f, "the record is appended with one write", call, "the manifest is written in a loop: the change set reaches the file in pieces")
+		return true
+	})
+	r.Exists(writes == 1, f, "one append", nil, "expected exactly one write to the manifest file in addChanges")
+	// one header: PutUint32 calls outside loops
+	for _, s := range f.Sites(selPred("PutUint32", func(w *World, fn *Fn, n ast.Node) bool {
+		call, ok := n.(*ast.CallExpr)
+		return ok && w.Callee(call) != nil && w.Callee(call).Name() == "PutUint32"
+	})) {
+		r.Check(!inLoop(s), f, "one length/CRC header per change set", s, "record headers are built in a loop: one change set becomes several records")
+	}
+}
+
 func propC17(c *Check) {
+	ruleR17_7(c)
 	ruleR17_6(c)
 	ruleR09_4(c)
 	ruleR17_1(c)
